@@ -980,6 +980,111 @@ def _args_render(elems):
     return ', '.join(parts)
 
 
+def stage_kind_change_and_view_reuse(ctx: Ctx):
+    """deterministic: (a) ONE element of the merged virtual fields replaced by an element of the other kind (positional <-> keyword) in layouts where the column order differs from the
+    source order; (b) one bounded sub-view object reused after an element was deleted through single-item assignment of None: it still covers its own elements"""
+    import fst
+    for src, path, virt in [('call(aaaaaaaa, bbbbbbbb,\n     c=1)\n', 'body[0].value', '_args'), ('call(aaaaaaaa, bbbbbbbb,\n     c=1, dddd=2,\n  e=3)\n', 'body[0].value', '_args'),
+                            ('class K(Aaaaaaaa, Bbbbbbbb,\n  m=M): pass\n', 'body[0]', '_bases'), ('call(aaaaaaaa,\n    *bbbb,\n  c=1,\n **d)\n', 'body[0].value', '_args'),
+                            ('call(k=1,\n     *ssssssss, j=2)\n', 'body[0].value', '_args')]:
+        probe = fst.FST(src, 'exec')
+        elems = [e_.src for e_ in getattr(eval('probe.' + path), virt)]
+        head = src[:src.index('(') + 1]
+        tail = src[src.rindex(')'):]
+        for i in range(len(elems)):
+            for code in ('xx', 'kk=vv', '*ss', '**dd'):
+                exp = elems[:i] + [code] + elems[i + 1:]
+                esrc = head + ', '.join(exp) + tail
+                try:
+                    want = canon(ast.parse(esrc))
+                except SyntaxError:
+                    continue
+                for ep in ('put', 'setitem', 'child-replace'):
+                    m = fst.FST(src, 'exec')
+                    node = eval('m.' + path)
+                    desc = {'src': src, 'field': virt, 'index': i, 'code': code, 'entry': ep}
+                    try:
+                        if ep == 'put':
+                            node.put(code, i, virt)
+                        elif ep == 'setitem':
+                            getattr(node, virt)[i] = code
+                        else:
+                            getattr(node, virt)[i].replace(code)
+                    except (fst.NodeError, ValueError, SyntaxError, NotImplementedError) as ex:
+                        ctx.tick(None, 'kind-change:refused')
+                        if m.src != src:
+                            ctx.violation('kind-change|refusal-dirty', 'a refused put changed the source', {**desc, 'error': repr(ex)[:200], 'result_src': m.src})
+                        continue
+                    except Exception as ex:
+                        ctx.violation(f'kind-change|crash|{type(ex).__name__}', 'a single-element put through a merged virtual field raised an internal error', {**desc, 'error': repr(ex)[:300]})
+                        continue
+                    ctx.tick(('kind-change', src, i, code, ep), 'kind-change:' + ep)
+                    try:
+                        got_src = canon(ast.parse(m.src))
+                    except SyntaxError as ex:
+                        got_src = ('SyntaxError', str(ex))
+                    if canon(m.a) != want or got_src != want:
+                        ctx.violation(f'kind-change|structure|{virt}', 'after replacing one element of a merged virtual field by an element of another kind the tree is not old[:i] + [new] + old[i+1:]',
+                                      {**desc, 'result_src': m.src, 'expected_src': esrc, 'live_equals_expected': canon(m.a) == want})
+    # (b)
+    for base, (s0, e0) in [(['a', 'b', 'c', 'd'], (1, 3)), (['a', 'b', 'c', 'd', 'e'], (1, 4)), (['a', 'b', 'c'], (0, 2))]:
+        for script in (['del0', 'append'], ['del0', 'set-1'], ['del0', 'len', 'append', 'set-1'], ['del-1', 'append'], ['del0', 'del0', 'append'], ['del0', 'insert0'], ['del0', 'iter', 'extend']):
+            m = fst.FST('[' + ', '.join(base) + ']', 'expr')
+            v = m.elts[s0:e0]
+            L, s_, e_ = list(base), s0, e0
+            ok, steps = True, []
+            for op in script:
+                try:
+                    if op == 'del0':
+                        if e_ - s_ < 1:
+                            break
+                        v[0] = None
+                        del L[s_]
+                        e_ -= 1
+                    elif op == 'del-1':
+                        if e_ - s_ < 1:
+                            break
+                        v[-1] = None
+                        del L[e_ - 1]
+                        e_ -= 1
+                    elif op == 'append':
+                        v.append('x')
+                        L.insert(e_, 'x')
+                        e_ += 1
+                    elif op == 'set-1':
+                        if e_ - s_ < 1:
+                            break
+                        v[-1] = 'y'
+                        L[e_ - 1] = 'y'
+                    elif op == 'insert0':
+                        v.insert('w', 0)
+                        L.insert(s_, 'w')
+                        e_ += 1
+                    elif op == 'extend':
+                        v.extend('p, q')
+                        L[e_:e_] = ['p', 'q']
+                        e_ += 2
+                    elif op == 'len':
+                        if len(v) != e_ - s_:
+                            ok = False
+                    elif op == 'iter':
+                        if [x.src for x in v] != L[s_:e_]:
+                            ok = False
+                except Exception as ex:
+                    ctx.violation(f'view-reuse|raise|{type(ex).__name__}', 'reusing a bounded sub-view after a single-item deletion raised', {'list': base, 'window': [s0, e0], 'script': script, 'at': op, 'error': repr(ex)[:200]})
+                    ok = None
+                    break
+                steps.append(op)
+                if [x.src for x in m.elts] != L or [x.src for x in v] != L[s_:e_] or len(v) != e_ - s_:
+                    ok = False
+                if ok is False:
+                    break
+            ctx.tick(('view-reuse', tuple(base), s0, e0, tuple(script)), 'view-reuse')
+            if ok is False:
+                ctx.violation('view-reuse|window', 'a bounded sub-view reused after a single-item deletion no longer covers exactly its own elements',
+                              {'list': base, 'window': [s0, e0], 'script': script, 'steps_done': steps, 'field_now': [x.src for x in m.elts], 'view_now': [x.src for x in v], 'expected_field': L, 'expected_view': L[s_:e_]})
+
+
 OPT_FIELDS = [('assert (a)\n', 'body[0]', 'msg'), ('assert (a), "m"\n', 'body[0]', 'msg'), ('assert (a and\n b)\n', 'body[0]', 'msg'), ('assert (\n    a\n), (\n    m\n)\n', 'body[0]', 'msg'), ('assert a\n', 'body[0]', 'msg'),
               ('raise (E)\n', 'body[0]', 'cause'), ('raise (E) from (c)\n', 'body[0]', 'cause'), ('raise E from c\n', 'body[0]', 'cause'), ('x: (int)\n', 'body[0]', 'value'), ('x: (int) = (1)\n', 'body[0]', 'value'),
               ('def f() -> (r): pass\n', 'body[0]', 'returns'), ('def f(a=(1)): pass\n', 'body[0]', 'returns'), ('with (a) as (b): pass\n', 'body[0].items[0]', 'optional_vars'), ('with (a): pass\n', 'body[0].items[0]', 'optional_vars'),
@@ -1256,6 +1361,7 @@ def run(ctx: Ctx):
     run_guarded(ctx, stage_clause_removal)
     run_guarded(ctx, stage_arguments_sweep)
     run_guarded(ctx, stage_optional_and_glued)
+    run_guarded(ctx, stage_kind_change_and_view_reuse)
 
 
 def replay(path):
